@@ -197,30 +197,47 @@ struct PendingCancellation {
     symbol: String,
     quantity: Decimal,
     price: Decimal,
+    /// Fees quoted on the Cancel Sell row, if any.
+    fees: Option<Decimal>,
 }
 
 /// Remove sells that were cancelled. Each cancellation matches a sell with
-/// the same (date, symbol, quantity, price). Unmatched cancellations produce
-/// warnings.
+/// the same (date, symbol, quantity, price); among several such sells the one
+/// whose fees equal the fees quoted on the Cancel Sell row is the one cancelled,
+/// otherwise the one with the lowest fees, so that the result does not depend on
+/// the order of rows in the export. Unmatched cancellations produce warnings.
 fn apply_cancellations(
     transactions: &mut Vec<CgtTransaction>,
     cancellations: Vec<PendingCancellation>,
     warnings: &mut Vec<String>,
 ) {
     for cancel in cancellations {
-        if let Some(pos) = transactions.iter().position(|txn| {
-            matches!(
-                txn,
+        let candidates: Vec<(usize, Decimal)> = transactions
+            .iter()
+            .enumerate()
+            .filter_map(|(pos, txn)| match txn {
                 CgtTransaction::Sell {
                     date: d,
                     symbol: s,
                     quantity: q,
                     price: p,
-                    ..
-                } if *d == cancel.date && s == &cancel.symbol
-                    && *q == cancel.quantity && *p == cancel.price
-            )
-        }) {
+                    expenses,
+                } if *d == cancel.date
+                    && s == &cancel.symbol
+                    && *q == cancel.quantity
+                    && *p == cancel.price =>
+                {
+                    Some((pos, *expenses))
+                }
+                _ => None,
+            })
+            .collect();
+        let chosen = candidates
+            .iter()
+            .find(|(_, expenses)| cancel.fees == Some(*expenses))
+            .or_else(|| candidates.iter().min_by_key(|(_, expenses)| *expenses))
+            .map(|(pos, _)| *pos);
+        if let Some(pos) = chosen {
             transactions.remove(pos);
         } else {
             warnings.push(format!(
@@ -314,6 +331,7 @@ fn process_transactions(
                         symbol: trade.common.symbol,
                         quantity: trade.quantity,
                         price: trade.price,
+                        fees: trade.fees_commissions,
                     });
                 }
                 SchwabTransaction::StockPlanActivity(activity) => {
